@@ -100,6 +100,12 @@ def check(ctx):
     prog = ctx.prog.view("all")
     bs = builders(prog)
     ctx.floor("R-1", "builder types", len(bs), 14)
+    # the guard tables below evaluate `is_private(i)` as `i < -65536`; that summary is re-checked here for every registry with
+    # a private range, because the panic guards of `private_claim` & co. refuse exactly what it says (C17 R-3's recogniser)
+    from rules import c17
+    for imp in ctx.prog.impls:
+        if imp.get("trait") == c17.WPR:
+            c17.check_private_predicate(ctx, "R-3", imp["self_ty"])
     n_methods = 0
     n_setters = 0
     for bname, methods in sorted(bs.items()):
